@@ -176,6 +176,56 @@ def run(ctx):
            if ok else "map_quotient does not scale every numerator coefficient by "
            "1/denominator")
 
+    # a handler that scales a child's coefficient dict in place and hands it on
+    # relies on every rec() returning a dict nobody else holds: a look-aside
+    # cache in the dispatch would hand the same (now scaled) dict out for the
+    # next occurrence of that child
+    mutating = []
+    for name in model.slots(cc):
+        hm = model.lookup(cc, name)
+        if hm is None or hm.kind != "func" or not hm.node.args.args:
+            continue
+        me = hm.node.args.args[0].arg
+        fresh = set()
+        for st in ast.walk(hm.node):
+            if isinstance(st, ast.Assign) and len(st.targets) == 1 and \
+                    isinstance(st.targets[0], ast.Name) and isinstance(
+                        st.value, ast.Call) and ast.unparse(st.value.func) in (
+                        f"{me}.rec", me):
+                fresh.add(st.targets[0].id)
+        for st in ast.walk(hm.node):
+            tg = st.targets if isinstance(st, (ast.Assign, ast.Delete)) else \
+                [st.target] if isinstance(st, ast.AugAssign) else []
+            for t in tg:
+                if isinstance(t, ast.Subscript) and isinstance(t.value, ast.Name) \
+                        and t.value.id in fresh:
+                    mutating.append((hm, st))
+            if isinstance(st, ast.Call) and isinstance(st.func, ast.Attribute) \
+                    and isinstance(st.func.value, ast.Name) and \
+                    st.func.value.id in fresh and st.func.attr in (
+                        "update", "pop", "clear", "setdefault", "popitem"):
+                mutating.append((hm, st))
+    callm = model.lookup(cc, "__call__")
+    recm = model.lookup(cc, "rec")
+    cached = [m.owner.name for m in (callm, recm) if m is not None and any(
+        isinstance(x, ast.Attribute) and "cache" in x.attr
+        for x in ast.walk(m.node))]
+    if mutating:
+        hm, st = mutating[0]
+        ctx.ob("O/CoefficientCollector/in-place-results-not-cached", not cached,
+               hm.owner.module.loc(st),
+               f"{hm.node.name} updates a child's coefficient dict in place; the "
+               "dispatch keeps no look-aside table, so nobody else holds it"
+               if not cached else
+               f"CoefficientCollector.{hm.node.name} updates the dict returned by "
+               f"rec() in place, and the dispatch ({', '.join(cached)}) keeps "
+               "results in a look-aside cache: the cached coefficients of the "
+               "numerator are scaled too, so x/2 + x collects x: 1/2 + 1/2")
+    else:
+        ctx.ob("O/CoefficientCollector/in-place-results-not-cached", True,
+               cc.loc(), "no handler updates a child's result in place",
+               nontrivial=False)
+
     # leaf rule: target selection
     mem = model.lookup(cc, "map_algebraic_leaf")
     saw = set()
@@ -440,6 +490,12 @@ def _solver_assembly(ctx, m, fn, loc):
                "assignment does not satisfy the equation")
 
 
+def _const_int(e):
+    if isinstance(e, ast.UnaryOp) and isinstance(e.op, ast.USub):
+        e = e.operand
+    return isinstance(e, ast.Constant) and isinstance(e.value, int)
+
+
 def _solver_refusals(ctx, m, fn, lp, loc):
     """necessary conditions for 'raises when an unknown is not uniquely
     determined' and 'accepted systems are satisfied': some refusal must look at
@@ -506,12 +562,21 @@ def _solver_refusals(ctx, m, fn, lp, loc):
                 guards.append(i_.test)
     scope = ast.Module(body=tail, type_ignores=[])
     sees_rhs = False
+    sees_rhs_row = False
     sees_beyond = False
     for t in guards:
         for r in reads(t, scope):
             name = r.value.id if isinstance(r, ast.Subscript) else r.id
             if name == RHS:
                 sees_rhs = True
+                # ... and a whole row of it: the columns before the last hold
+                # the coefficients of the remaining parameters
+                sl = r.slice if isinstance(r, ast.Subscript) else None
+                elts = sl.elts if isinstance(sl, ast.Tuple) else [sl]
+                one_col = sl is not None and len(elts) == 2 and _const_int(
+                    elts[1])
+                if not one_col:
+                    sees_rhs_row = True
             if name == MAT:
                 if not isinstance(r, ast.Subscript):
                     sees_beyond = True
@@ -529,6 +594,14 @@ def _solver_refusals(ctx, m, fn, lp, loc):
            "no refusal after the elimination depends on the right-hand side: an "
            "inconsistent system (x == 5, x == 6) cannot be told from a "
            "consistent one and is 'solved' (x = 5)")
+    if sees_rhs:
+        ctx.ob("P/solve_affine/refusal-reads-whole-right-hand-row", sees_rhs_row,
+               loc, "the consistency refusal looks at a whole right-hand row "
+               "(parameter coefficients and constant)" if sees_rhs_row else
+               "the refusals read single columns of the right-hand side only: a "
+               "row left without unknowns whose right-hand side differs in a "
+               "parameter coefficient (x == n, x == m leaves 0 == m - n) passes, "
+               "and the returned assignment does not satisfy that equation")
     ctx.ob("P/solve_affine/refusal-reads-beyond-own-column", sees_beyond, loc,
            "a refusal looks at more than the unknown's own column" if sees_beyond
            else "every refusal looks only at the current unknown's column and "
@@ -587,8 +660,28 @@ def _solver(ctx, model):
             if isinstance(n_, ast.BinOp) and isinstance(n_.op, ast.FloorDiv):
                 divs.append((i, n_.right))
     if not divs:
-        raise AnalysisError("solve_affine_equations_for: no division by the "
-                            "pivot found in the result loop")
+        # a pivot that passed  abs(pivot) != 1 -> raise  is +1 or -1; with no
+        # division (or multiplication) by it the sign of a -1 pivot is lost
+        unit_guard = None
+        for gi, t in guards:
+            if isinstance(t, ast.Compare) and len(t.ops) == 1 and isinstance(
+                    t.ops[0], ast.NotEq) and U(t.comparators[0]) == "1" and \
+                    isinstance(t.left, ast.Call) and U(t.left.func) == "abs":
+                unit_guard = resolve(t.left.args[0], gi)
+        uses = unit_guard is not None and any(
+            isinstance(n_, ast.BinOp) and isinstance(
+                n_.op, (ast.Mult, ast.Div, ast.FloorDiv)) and U(unit_guard) in (
+                U(resolve(n_.right, len(body))), U(resolve(n_.left, len(body))))
+            for st in body for n_ in ast.walk(st))
+        if unit_guard is None or uses:
+            raise AnalysisError("solve_affine_equations_for: no division by the "
+                                "pivot found in the result loop")
+        ctx.ob("P/solve_affine/result-divided-by-pivot", False, loc,
+               f"the result loop admits a pivot {U(unit_guard)} of +1 or -1 "
+               "(abs(pivot) != 1 raises) and then takes the right-hand side "
+               "as it is: for a pivot of -1 (equation -x == n) the returned "
+               "assignment is x = n instead of x = -n")
+        divs = []
     ok = True
     for i, den in divs:
         E = resolve(den, i)
